@@ -12,12 +12,43 @@ open Argot.EGraph Argot.EGraph.EGraph
 def intrinsicOfKind (k : Nat) : Nat :=
   if k = 1 ∨ k = 2 then 1 else if k = 3 ∨ k = 8 then 2 else 0
 
+def emptyNG (n : Nat) (intr : Node → Nat) : NG :=
+  { next := n, intr := intr, sub := fun _ _ => none, par := fun _ => none, loadChild := fun _ => none,
+    loadBase := fun _ => none, loadOps := fun _ => [] }
+
 structure OState where
-  n : Nat := 0
+  n0 : Nat := 0                -- size of the declared universe
   kinds : Array Nat := #[]
+  ng : NG := emptyNG 0 (fun _ => 0)
   regs : Std.HashMap String EGraph := {}
 
-def OState.intr (s : OState) : Node → Nat := fun n => intrinsicOfKind (s.kinds.getD n 0)
+def OState.n (s : OState) : Nat := s.ng.next
+def OState.intr (s : OState) : Node → Nat := s.ng.intr
+
+/-- re-tabulate the node group as well -/
+def tabNG (ng : NG) : NG :=
+  let N := ng.next
+  let intr := (Array.range N).map ng.intr
+  let par := (Array.range N).map ng.par
+  let lc := (Array.range N).map ng.loadChild
+  let lb := (Array.range N).map ng.loadBase
+  let lo := (Array.range N).map ng.loadOps
+  let subs : Array (List (Nat × Node)) := (Array.range N).map fun b =>
+    (List.range N).filterMap fun c => match ng.par c with
+      | some (p, f) => if p = b ∧ ng.sub b f = some c then some (f, c) else none
+      | none => none
+  { next := N, intr := fun n => intr.getD n 0, par := fun n => par.getD n none,
+    loadChild := fun n => lc.getD n none, loadBase := fun n => lb.getD n none, loadOps := fun n => lo.getD n [],
+    sub := fun b f => ((subs.getD b []).find? (·.1 = f)).map (·.2) }
+
+/-- name of a node as the Go hook prints it: index in the declared universe, or the path of its creation -/
+partial def nodeName (s : OState) (n : Node) : String :=
+  if n < s.n0 then toString n else
+  match s.ng.par n with
+  | some (p, f) => nodeName s p ++ s!"/f:f{f}"
+  | none => match s.ng.loadBase n with
+    | some b => nodeName s b ++ "/load"
+    | none => s!"?{n}"
 
 /-- re-tabulate the function fields into arrays, so look-ups stay O(1) after many updates -/
 def tabulate (N : Nat) (g : EGraph) : EGraph :=
@@ -29,11 +60,13 @@ def tabulate (N : Nat) (g : EGraph) : EGraph :=
 
 def sortStrs (l : List String) : List String := (l.toArray.qsort (· < ·)).toList
 
-def showGraph (N : Nat) (g : EGraph) : String :=
-  let st := sortStrs (g.dom.map fun n => s!"{n}:{g.st n}")
-  let out := sortStrs (((List.range N).filter g.out).map toString)
+def showGraph (s : OState) (g : EGraph) : String :=
+  let N := s.n
+  let nm := nodeName s
+  let st := sortStrs (g.dom.map fun n => s!"{nm n}:{g.st n}")
+  let out := sortStrs (((List.range N).filter g.out).map nm)
   let es := sortStrs ((List.range N).flatMap fun a => ((List.range N).filter fun b => (g.fl a b).any).map fun b =>
-    s!"{a}>{b}:{(g.fl a b).toNat}")
+    s!"{nm a}>{nm b}:{(g.fl a b).toNat}")
   "st=" ++ ",".intercalate st ++ " out=" ++ ",".intercalate out ++ " e=" ++ ",".intercalate es
 
 def parseList (s : String) : Option (List String) :=
@@ -81,7 +114,9 @@ partial def loop (h : IO.FS.Stream) (s : OState) : IO Unit := do
     | some n =>
       let kinds := ks.toList.map fun c => c.toNat - '0'.toNat
       if kinds.length ≠ n then do bad; loop h s
-      else loop h { n := n, kinds := kinds.toArray, regs := {} }
+      else
+        let ka := kinds.toArray
+        loop h { n0 := n, kinds := ka, ng := emptyNG n (fun x => intrinsicOfKind (ka.getD x 0)), regs := {} }
     | none => do bad; loop h s
   | ["g", r, sst, sout, se] =>
     match parseGraph s.n sst sout se with
@@ -114,7 +149,7 @@ partial def loop (h : IO.FS.Stream) (s : OState) : IO Unit := do
     | _, _ => do bad; loop h s
   | ["show", g] =>
     match reg g with
-    | some g => do IO.println (showGraph s.n g); loop h s
+    | some g => do IO.println (showGraph s g); loop h s
     | none => do bad; loop h s
   | ["chk", g] =>
     match reg g with
@@ -122,6 +157,48 @@ partial def loop (h : IO.FS.Stream) (s : OState) : IO Unit := do
       IO.println s!"chk rep={b01 (g.repOk s.n)} closed={b01 g.closedB} wf={b01 (g.wfB s.intr s.n)}"
       loop h s
     | none => do bad; loop h s
+  | ["sub", b, f, c] =>
+    -- register node c (of the declared universe) as field subnode f of b
+    match b.toNat?, f.toNat?, c.toNat? with
+    | some b, some f, some c =>
+      if b < s.n0 ∧ c < s.n0 then
+        let ng := s.ng
+        let ng' : NG := { ng with sub := fun x y => if x = b ∧ y = f then some c else ng.sub x y,
+                                  par := fun x => if x = c then some (b, f) else ng.par x }
+        loop h { s with ng := tabNG ng' }
+      else do bad; loop h s
+    | _, _, _ => do bad; loop h s
+  | ["wa", r, g, d, sr] =>
+    match reg g, d.toNat?, sr.toNat? with
+    | some g, some d, some sr =>
+      if d < s.n ∧ sr < s.n then
+        let res := weakAssign (s.ng.next + 2) s.ng g d sr
+        let s' := { s with ng := tabNG res.1 }
+        loop h { s' with regs := s'.regs.insert r (tabulate s'.n res.2) }
+      else do bad; loop h s
+    | _, _, _ => do bad; loop h s
+  | ["store", r, g, a, v, f] =>
+    match reg g, a.toNat?, v.toNat? with
+    | some g, some a, some v =>
+      if a < s.n ∧ v < s.n ∧ (f == "-" || f.toNat?.isSome) then
+        let res := storeField s.ng g a v f.toNat?
+        let s' := { s with ng := tabNG res.1 }
+        loop h { s' with regs := s'.regs.insert r (tabulate s'.n res.2) }
+      else do bad; loop h s
+    | _, _, _ => do bad; loop h s
+  | ["load", r, g, v, a, op, f] =>
+    match reg g, v.toNat?, a.toNat?, op.toNat? with
+    | some g, some v, some a, some op =>
+      if a < s.n ∧ v < s.n ∧ (f == "-" || f.toNat?.isSome) then
+        let res := loadField s.ng g v a op f.toNat?
+        let s' := { s with ng := tabNG res.1 }
+        loop h { s' with regs := s'.regs.insert r (tabulate s'.n res.2) }
+      else do bad; loop h s
+    | _, _, _, _ => do bad; loop h s
+  | ["callunknown", r, g, as] =>
+    match reg g, (as.splitOn ",").mapM String.toNat? with
+    | some g, some as => if as.all (· < s.n) then loop h (put r (callUnknown g as)) else do bad; loop h s
+    | _, _ => do bad; loop h s
   | _ => do bad; loop h s
 
 def main : IO Unit := do loop (← IO.getStdin) {}
